@@ -490,7 +490,75 @@ class ChunkRelativeFrames(Case):
         return d
 
 
-CASES = [ScanWindowsSingle(3), ScanWindowsSingle(1), PrepSingleExon(False), PrepSingleExon(True), PrepTwoExons(),
+class CdsOptimize(Case):
+    """CDSInterval.optimize_blocks / optimize_and_combine_blocks: the new CDS covers the same bases (adjacent blocks
+    merged) and ALWAYS carries freshly derived frames - one uninterrupted reading frame continuing the frame of the
+    5'-most block - whatever (possibly frameshifted) frames the source listed, also when no block had to be merged
+    (the documented 'internal frameshifts will be lost'; the .tbl writer relies on it for pseudo / partial flags)."""
+    props = ("C05", "C17")
+    func = CDS + ".optimize_and_combine_blocks"
+
+    def __init__(self, method):
+        self.method = method
+        self.name = f"CDSInterval.{method}[2 blocks, any listed frames]"
+        self.call = (f"(lambda r: (r.chromosome_location, [x.value for x in r.frames], r.strand))(cds.{method}())")
+        self.ensures = {
+            "same-bases": lambda i, r: Iff(_cov(r[0], i.q), Or(*[And(s <= i.q, i.q < e) for s, e in zip(i.starts, i.ends)])),
+            "adjacent-blocks-merged": lambda i, r: len(_blocks(r[0])) == (1 if _concrete_true(i.adjacent) else 2)
+            if isinstance(i.adjacent, bool) else Or(And(i.adjacent, len(_blocks(r[0])) == 1),
+                                                    And(Not(i.adjacent), len(_blocks(r[0])) == 2)),
+            "frames-rederived-from-the-5p-frame": lambda i, r: _rederived(i, r),
+        }
+
+    def inputs(self, S):
+        starts, ends = block_lists(S, "cds", 2)
+        strand = strand_of(S, "strand")
+        fs = []
+        for k in range(2):
+            f = S.enum(FRAME, f"frame{k}")
+            S.assume(Not(enum_name_is(f, "NONE")))
+            if S.mode == "sym":
+                f = S.e.enum_concretize(f)
+            fs.append(f)
+        cds = S.new(CDS, starts, ends, strand, fs)
+        plus = _is_plus(strand)
+        f5 = fs[0] if plus else fs[1]
+        fv = f5.value if not hasattr(f5, "members") else f5.members[f5.idx][1]
+        return NS(cds=cds, starts=starts, ends=ends, plus=plus, f5=fv, q=S.int("q"), adjacent=ends[0] == starts[1])
+
+    def samples(self, rng):
+        d = sample_blocks(rng, "cds", 2, gap=(0, 1, 3), length=(1, 2, 3, 4, 7))
+        d.update(strand=rng.choice(["PLUS", "MINUS"]), frame0=rng.choice(["ZERO", "ONE", "TWO"]),
+                 frame1=rng.choice(["ZERO", "ONE", "TWO"]), q=rng.randint(0, 20))
+        return d
+
+    def observe(self, r):
+        from .c02_single import obs_loc
+        from pyvc.check import default_observe as o
+        return [obs_loc(r[0])[:2], [o(x) for x in r[1]], o(r[2])]
+
+
+def _cov(loc, q):
+    from .c02_single import covers_pos
+    return covers_pos(loc, q)
+
+
+def _concrete_true(x):
+    return x is True
+
+
+def _rederived(i, r):
+    bl = _blocks(r[0])
+    fr = list(r[1])
+    if len(fr) != len(bl):
+        return False
+    if len(bl) == 1:
+        return fr[0] == i.f5
+    first, second = (0, 1) if i.plus else (1, 0)
+    return And(fr[first] == i.f5, fr[second] == Mod((bl[first][1] - bl[first][0]) - i.f5, 3))
+
+
+CASES = [CdsOptimize("optimize_and_combine_blocks"), CdsOptimize("optimize_blocks"), ScanWindowsSingle(3), ScanWindowsSingle(1), PrepSingleExon(False), PrepSingleExon(True), PrepTwoExons(),
          PrepExons(3), ChunkRelativeFrames(1, True), ChunkRelativeFrames(2, True), ChunkRelativeFrames(3, True),
          ConstructFrames(1), ConstructFrames(2), ConstructFrames(3), CodonsSingleExonChunk()]
 
